@@ -182,3 +182,23 @@ def early_grant_scenarios(tag):
                   {"a": "quiesce"}, {"a": "closeConn", "g": "X", "ctxMs": 2000, "wait": True}, {"a": "quiesce", "ms": 50}]
         scs.append({"id": "%s/earlyGrant/%d" % (tag, k), "kind": "iscp", "conn": {}, "steps": steps})
     return scs
+
+
+def slow_ack_scenarios(tag):
+    """the broker acknowledges late (1.3 - 2.2 s after the chunk, well inside the close timeout of 4 s; no ack timeout is configured):
+    Close waits for the acknowledgement, the close request follows it, every result reaches the ack hook, the totals are complete."""
+    scs = []
+    for k, (n, wait_ms, close_first) in enumerate([(1, 1300, True), (2, 1500, True), (1, 1300, False), (3, 2200, True)]):
+        steps = [{"a": "connect", "must": True}, {"a": "openUp", "obj": "U1", "qos": "reliable", "policy": {"k": "none"}, "must": True, "closeTimeoutMs": 4000}]
+        for t in range(1, n + 1):
+            steps += [{"a": "write", "g": "W", "obj": "U1", "id": "AB"[t % 2], "pts": [[t, 8]], "ctxMs": 2000, "wait": True},
+                      {"a": "flush", "g": "W", "obj": "U1", "ctxMs": 2000, "wait": True}]
+        steps += [{"a": "join", "obj": "W"}]
+        if close_first:
+            steps += [{"a": "closeUp", "g": "C", "obj": "U1", "ctxMs": 6000}, {"a": "sleep", "ms": wait_ms}]
+        else:
+            steps += [{"a": "sleep", "ms": wait_ms}, {"a": "closeUp", "g": "C", "obj": "U1", "ctxMs": 6000}, {"a": "sleep", "ms": 50}]
+        steps += [{"a": "ackUntilIdle", "obj": "U1", "src": "C", "ms": 5000}, {"a": "join", "obj": "C"},
+                  {"a": "quiesce"}, {"a": "state", "obj": "U1"}, {"a": "closeConn", "g": "X", "ctxMs": 2000, "wait": True}, {"a": "quiesce", "ms": 50}]
+        scs.append({"id": "%s/slowAck/%d" % (tag, k), "kind": "iscp", "conn": {"pingMs": [5000, 2000]}, "steps": steps})
+    return scs
